@@ -170,7 +170,7 @@ def main():
         else:
             report(fid, msg, rep)
 
-    nh, steps = {"quick": (24, 10), "thorough": (400, 14)}[ck.tier]
+    nh, steps = {"quick": (24, 10), "thorough": (240, 14)}[ck.tier]
     hists, impl, sql_logs, crosses = [], [], [], []
     def K(t, s_="S1"):
         return [S("DB1"), S(s_), S(t)]
